@@ -55,7 +55,7 @@ var c11Exprs = []string{
 	". + [1]", ". - [1]", ". * {\"a\": 1}", ". + {\"a\": 1}", ". + \"s\"", ". * \"s\"", ". // 1", ". == 1", ". < 1", ". >= \"a\"", ". and true", ". or false", "not", "select(. == 1)", "..", "...", ".[]", ".[] as $x | $x", ".[] as $i ireduce (0; . + $i)",
 	"{(.a): 1}", "{\"k\": .[]}", "[.[] | .a]", "to_number", "to_string", "upcase", "trim", "test(\"a\")", "sub(\"a\", \"b\")", "match(\"a\")", "capture(\"(?P<n>a)\")", "path", "parent", "parent(2)", "key", "tag", "kind", "style", "anchor", "alias", "line", "column",
 	"explode(.)", "splitDoc", "document_index", "filename", "pivot", "array_to_map", "sort_keys(.)", "sort_keys(..)", "del(.a)", "del(.[])", "del(..)", ".a = .b", ".. |= .", ".[] += 1", "with(.a; . = 1)", "setpath([\"a\", 7770001]; 1)", "delpaths([[\"a\"]])", "eval(\".a\")",
-	"(.a, .b) = 1", ".a.b.c = 1", ".[\"a\"]", ".a?", ".[]?", ".a[]?", "tag = \"!!str\"", ". style=\"flow\"", "anchor = \"x\"", "alias = \"x\"", "line_comment = \"c\"", "... comments=\"\"", "to_entries | from_entries", "[.[] | select(.a == 1)]",
+	"(.a, .b) = 1", ".a.b.c = 1", ".[\"a\"]", ".a?", ".[]?", ".a[]?", ". tag = \"!!str\"", ". style=\"flow\"", ". anchor = \"x\"", ".a alias = \"x\"", ". line_comment = \"c\"", "... comments=\"\"", "to_entries | from_entries", "[.[] | select(.a == 1)]",
 }
 
 func VerifC11Operators() {
